@@ -6,7 +6,7 @@ C19c  The type names `augmentCall` switches on are the ones
 `extractArgumentsType` computes from the declaration.
 
 Model: `PP.TN.name`, `fieldToType`, `extractArgumentsType`
-(PP/Model/TypeNames.lean) — stack/source.go:159-236 over a datatype of go/ast
+(PP/Model/TypeNames.lean) — stack/source.go:159-250 over a datatype of go/ast
 node kinds.  Spec: `PP.Spec.astOf` / `declOf` (PP/Spec/TypeAst.lean),
 `PP.Spec.typeName` (PP/Spec/Encode.lean).  With these theorems the hypothesis
 of C19 "the type list is `vs.map typeName`" is discharged for every
@@ -37,17 +37,22 @@ theorem extract_eq (d : GoFuncDecl) :
   rw [recvFields_append, extractLoop_eq, lastFlag_getLast?, hm, List.nil_append]
   rfl
 
-/-- the receiver is used iff it is the only receiver field and a pointer -/
-theorem usedFields_pointer_receiver (f : GoField) (x : GoExpr) (ps : List GoField) (h : f.typ = .star x) :
-    usedFields ⟨some [f], ps⟩ = f :: ps := by
+/-- the receiver is used iff it is the only receiver field and, parentheses
+stripped, a pointer -/
+theorem usedFields_unparen_pointer_receiver (f : GoField) (x : GoExpr) (ps : List GoField)
+    (h : unparen f.typ = .star x) : usedFields ⟨some [f], ps⟩ = f :: ps := by
   simp [usedFields, h]
 
-theorem usedFields_value_receiver (f : GoField) (ps : List GoField) (h : ∀ x, f.typ ≠ .star x) :
+theorem usedFields_pointer_receiver (f : GoField) (x : GoExpr) (ps : List GoField) (h : f.typ = .star x) :
+    usedFields ⟨some [f], ps⟩ = f :: ps :=
+  usedFields_unparen_pointer_receiver f x ps (by rw [h]; rfl)
+
+theorem usedFields_value_receiver (f : GoField) (ps : List GoField) (h : ∀ x, unparen f.typ ≠ .star x) :
     usedFields ⟨some [f], ps⟩ = ps := by
   obtain ⟨n, t⟩ := f
-  cases t with
-  | star x => exact (h x rfl).elim
-  | _ => rfl
+  have h' : ∀ x, unparen t ≠ .star x := h
+  -- the catch-all equation of the match asks for exactly `h'`, found in the context
+  simp only [usedFields]
 
 theorem usedFields_no_receiver (ps : List GoField) : usedFields ⟨none, ps⟩ = ps := rfl
 
@@ -69,8 +74,9 @@ theorem extract_length (d : GoFuncDecl) :
 
 /-! ### receivers -/
 
-/-- a value receiver `(t T)` is not printed by the runtime and is skipped -/
-theorem value_receiver_skipped (f : GoField) (ps : List GoField) (h : ∀ x, f.typ ≠ .star x) :
+/-- a value receiver `(t T)` (also `(t (T))`) is skipped: the code assumes the
+runtime does not print it -/
+theorem value_receiver_skipped (f : GoField) (ps : List GoField) (h : ∀ x, unparen f.typ ≠ .star x) :
     extractArgumentsType ⟨some [f], ps⟩ = extractArgumentsType ⟨none, ps⟩ := by
   rw [extract_eq, extract_eq, usedFields_value_receiver f ps h, usedFields_no_receiver]
 
@@ -82,8 +88,29 @@ theorem pointer_receiver_first (n : Nat) (x : GoExpr) (ps : List GoField) :
        (extractArgumentsType ⟨none, ps⟩).2) := by
   rw [extract_eq, extract_eq, usedFields_pointer_receiver ⟨n, .star x⟩ x ps rfl, usedFields_no_receiver]
   cases ps with
-  | nil => simp [fieldToType, isEllipsis]
-  | cons p t => simp [fieldToType, List.getLast?_cons_cons]
+  | nil => simp [fieldToType, isEllipsis, unparen]
+  | cons p t => simp [fieldToType, List.getLast?_cons_cons, unparen]
+
+/-- parentheses around the receiver type do not matter: `(t (T))` is `(t T)`,
+`(t ((*T)))` is `(t *T)` -/
+theorem paren_receiver (n : Nat) (e : GoExpr) (ps : List GoField) :
+    extractArgumentsType ⟨some [⟨n, .paren e⟩], ps⟩ = extractArgumentsType ⟨some [⟨n, e⟩], ps⟩ := by
+  rw [extract_eq, extract_eq]
+  simp only [usedFields, unparen_paren]
+  generalize hu : unparen e = u
+  cases u <;> first
+    | rfl
+    | (cases ps with
+       | nil => simp [fieldToType, isEllipsis, unparen_paren]
+       | cons p t => simp [fieldToType, List.getLast?_cons_cons, unparen_paren])
+
+/-- **The fixed defect.**  `func (t (*T)) F(…)`: the parenthesised pointer
+receiver is used exactly like `(t *T)` -/
+theorem paren_receiver_is_pointer_receiver (n : Nat) (x : GoExpr) (ps : List GoField) :
+    extractArgumentsType ⟨some [⟨n, .paren (.star x)⟩], ps⟩ =
+      (List.replicate (max 1 n) (b!"*" ++ name x) ++ (extractArgumentsType ⟨none, ps⟩).1,
+       (extractArgumentsType ⟨none, ps⟩).2) := by
+  rw [paren_receiver, pointer_receiver_first]
 
 /-- receiver lists that go/parser accepts but that are not valid Go (`()`,
 `(a *T, b *U)`) contribute nothing -/
@@ -146,6 +173,12 @@ theorem unnamed_counts_once (t : GoExpr) (ps : List GoField) :
   simp [List.flatMap_cons]
 
 theorem name_star (x : GoExpr) : name (.star x) = b!"*" ++ name x := rfl
+
+/-- `name` sees through parentheses: `(int)` is `int`, `*(T)` is `*T` -/
+theorem name_paren (x : GoExpr) : name (.paren x) = name x := rfl
+
+/-- a parenthesised parameter type is the type: `a (int16)` is `a int16` -/
+theorem fieldToType_paren (n : Nat) (e : GoExpr) : fieldToType ⟨n, .paren e⟩ = fieldToType ⟨n, e⟩ := rfl
 
 /-- a qualified name loses its package: `pkg.T` is `T` -/
 theorem name_selector (x : GoExpr) (sel : Bytes) : name (.selector x sel) = sel := rfl
@@ -262,7 +295,7 @@ example : extractArgumentsType valueRecvDecl = ([b!"int", b!"int"], true) := by 
 /-- generic receiver and parameter, parenthesised type, struct, `[...]int`,
 func, `any` -/
 example : extractArgumentsType oddDecl =
-    ([b!"*<unknown>", b!"<unknown>", b!"<unknown>", b!"<unknown>", b!"[...]int", b!"func", b!"any"], false) := by
+    ([b!"*<unknown>", b!"<unknown>", b!"int", b!"<unknown>", b!"[...]int", b!"func", b!"any"], false) := by
   decide
 
 /-- `...` without element (not produced by go/parser for parameters, but the
@@ -280,11 +313,24 @@ example : extractArgumentsType ⟨some [], [⟨1, .ident b!"int"⟩]⟩ = ([b!"i
 example : extractArgumentsType ⟨some [⟨1, .star (.ident b!"T")⟩, ⟨1, .star (.ident b!"U")⟩], []⟩ = ([], false) := by
   decide
 
-/-- **Quirk.**  `func (t (*T)) F(a int8)`: the compiler accepts a parenthesised
-receiver type (gofmt removes the parentheses) and the runtime prints the
-receiver word, but the node is a `*ast.ParenExpr`, not a `*ast.StarExpr`: the
-receiver is skipped and every value is decoded with its neighbour's type. -/
-example : extractArgumentsType ⟨some [⟨1, .other⟩], [⟨1, .ident b!"int8"⟩]⟩ = ([b!"int8"], false) := by decide
+/-- **Fixed defect.**  `func (t (*T)) F(a int8)`: the compiler accepts a
+parenthesised receiver type (gofmt removes the parentheses) and the runtime
+prints the receiver word.  Before commit 5a78232 the node, a `*ast.ParenExpr`,
+failed the `*ast.StarExpr` test: the receiver was skipped and every value was
+decoded with its neighbour's type.  `unparen` now sees through it. -/
+example : extractArgumentsType ⟨some [⟨1, .paren (.star (.ident b!"T"))⟩], [⟨1, .ident b!"int8"⟩]⟩ =
+    ([b!"*T", b!"int8"], false) := by decide
+
+/-- parentheses anywhere: receiver `(t (*T))`, `(int8)`, `((*[]int))`,
+`[]((pkg.E))`, `(string)` -/
+example : extractArgumentsType parenDecl =
+    ([b!"*T", b!"int8", b!"*<unknown>", b!"[]E", b!"string"], false) := by decide
+example : usedFields parenDecl = ⟨1, .paren (.star (.ident b!"T"))⟩ :: parenDecl.params := rfl
+/-- `(t (T))` stays a value receiver, `...(int)` is variadic `int`, `*(T)` is `*T` -/
+example : extractArgumentsType ⟨some [⟨1, .paren (.ident b!"T")⟩], [⟨1, .ellipsis (some (.paren (.ident b!"int")))⟩]⟩ =
+    ([b!"int"], true) := by decide
+example : fieldToType ⟨1, .star (.paren (.ident b!"T"))⟩ = (b!"*T", false) := by decide
+example : unparen (.paren (.paren (.star (.paren .other)))) = .star (.paren .other) := rfl
 
 /-- `**int`, `*[]int`, `*pkg.T` -/
 example : name (.star (.star (.ident b!"int"))) = b!"**int" := by decide
@@ -315,6 +361,7 @@ end examples
 end PP.Spec
 
 #print axioms PP.Spec.extract_eq
+#print axioms PP.Spec.usedFields_unparen_pointer_receiver
 #print axioms PP.Spec.usedFields_pointer_receiver
 #print axioms PP.Spec.usedFields_value_receiver
 #print axioms PP.Spec.usedFields_no_receiver
@@ -322,6 +369,8 @@ end PP.Spec
 #print axioms PP.Spec.extract_length
 #print axioms PP.Spec.value_receiver_skipped
 #print axioms PP.Spec.pointer_receiver_first
+#print axioms PP.Spec.paren_receiver
+#print axioms PP.Spec.paren_receiver_is_pointer_receiver
 #print axioms PP.Spec.receiver_not_single_skipped
 #print axioms PP.Spec.ellipsis_is_last_field
 #print axioms PP.Spec.flag_needs_type
@@ -329,6 +378,8 @@ end PP.Spec
 #print axioms PP.Spec.grouped_names_repeat
 #print axioms PP.Spec.unnamed_counts_once
 #print axioms PP.Spec.name_star
+#print axioms PP.Spec.name_paren
+#print axioms PP.Spec.fieldToType_paren
 #print axioms PP.Spec.name_selector
 #print axioms PP.Spec.fieldToType_slice
 #print axioms PP.Spec.fieldToType_ptr
